@@ -7,7 +7,7 @@ use std::process::{Command, Stdio};
 use std::sync::{Arc, Barrier};
 use std::time::{Duration, Instant};
 
-pub const OPS: &[&str] = &["format", "format_flat", "tree_format", "diagnostic_annotated", "hex", "register_tags", "kv_name", "fn_name", "param_name", "kv_store", "fn_store", "param_store", "format_own", "format_local", "request_summary"];
+pub const OPS: &[&str] = &["format", "format_flat", "tree_format", "diagnostic_annotated", "hex", "register_tags", "kv_name", "fn_name", "param_name", "kv_store", "fn_store", "param_store", "format_own", "format_local", "request_summary", "macro_scrutinee"];
 
 fn sample_envelopes() -> Vec<Envelope> {
     // built WITHOUT touching any registry (no formatting, no name lookups)
@@ -59,6 +59,16 @@ pub fn run_op(op: &str, e: &Envelope) -> String {
             let store = KnownValuesStore::new([KnownValue::new_with_name(1u64, "istEin".to_string()), KnownValue::new_with_name(4u64, "notiz".to_string()), KnownValue::new_with_name(16u64, "datum".to_string()), KnownValue::new_with_name(4711u64, "lokal".to_string())]);
             let ctx = bc_envelope::FormatContext::new(false, None, Some(&store), None, None);
             format!("{}|{}", e.format_opt(Some(&ctx)), e.tree_format_opt(false, Some(&ctx)))
+        }
+        // the exported macro where a caller may well put it: as the iterator expression of a `for` and the scrutinee of a `match`, with
+        // more formatting in the body - the context guard does not outlive the macro's own block
+        "macro_scrutinee" => {
+            // (the result reported is the number of formatting calls that returned: the texts themselves may straddle another thread's
+            // registration, this operation being several calls)
+            let mut done = 0usize;
+            for line in bc_envelope::with_format_context!(|ctx: &bc_envelope::FormatContext| e.tree_format_opt(false, Some(ctx))).lines().cycle().take(2) { if !line.is_empty() && !e.format_flat().is_empty() { done += 1; } }
+            match bc_envelope::with_format_context!(|ctx: &bc_envelope::FormatContext| e.format_opt(Some(ctx))).is_empty() { false => { if !e.tree_format(false).is_empty() { done += 1; } } true => {} }
+            format!("completed {}", done)
         }
         // the one-line summary of a request (what a logging statement prints)
         "request_summary" => { let r = bc_envelope::Request::new_with_body(Expression::new(bc_envelope::functions::ADD).with_parameter(bc_envelope::parameters::LHS, 2), bc_components::ARID::from_data_ref([5u8; 32]).unwrap()); use bc_envelope::RequestBehavior; let _ = r.id(); r.summary() }
@@ -294,8 +304,9 @@ fn spawn_self(args: &[String], timeout: Duration) -> Result<String, String> {
 pub fn campaign(outdir: &str, seed: u64, thorough: bool) {
     std::fs::create_dir_all(outdir).unwrap();
     let mut traces = String::new();
+    let mut alone_timeouts: Vec<String> = vec![];
     for op in OPS {
-        match spawn_self(&["c20-trace-one".into(), op.to_string()], Duration::from_secs(60)) { Ok(s) => traces.push_str(&s), Err(e) => traces.push_str(&format!("op {}\nerror {}\n", op, e)) }
+        match spawn_self(&["c20-trace-one".into(), op.to_string()], Duration::from_secs(30)) { Ok(s) => traces.push_str(&s), Err(e) => { if e == "timeout" { alone_timeouts.push(format!("operation {} run alone on one thread (first use, then again) never returns", op)); } traces.push_str(&format!("op {}\nerror {}\n", op, e)) } }
     }
     std::fs::write(format!("{}/traces.txt", outdir), &traces).unwrap();
     let table = |reg: &str| -> std::collections::HashSet<String> { spawn_self(&["c20-expected-one".into(), reg.into()], Duration::from_secs(60)).unwrap_or_default().lines().map(|l| l.to_string()).collect() };
@@ -304,8 +315,10 @@ pub fn campaign(outdir: &str, seed: u64, thorough: bool) {
     // formatting call returns next to a registering thread depends on how many registrations have happened so far)
     let again: Vec<(usize, std::collections::HashSet<String>)> = vec![(2, table("2")), (4, table("4"))];
     let mut rng = crate::rng::Rng::new(seed);
-    let rounds = if thorough { 400 } else { 48 };
+    // (an operation that deadlocks on its own is the finding; the concurrent runs would only time out one after the other)
+    let rounds = if !alone_timeouts.is_empty() { 0 } else if thorough { 400 } else { 48 };
     let (mut runs, mut calls_checked, mut mismatches, mut timeouts, mut panics) = (0u64, 0u64, vec![], vec![], vec![]);
+    timeouts.extend(alone_timeouts.iter().cloned());
     let mut samples = vec![];
     if before.is_empty() || after.is_empty() { panics.push("could not compute the sequential reference tables".to_string()); }
     match spawn_self(&["c20-variants-one".into()], Duration::from_secs(60)) {
